@@ -209,56 +209,107 @@ def nontrivial(ex):
     return False
 
 
+# entries of the residue vector of hook H1 (hooks/H1-residue.patch), in the order verifResidue() appends them
+RESIDUE_NAMES = ["m_variablesStack", "m_elementRecursionStack", "m_formatterListeners", "m_printWriters", "m_outputStreams",
+                 "m_matchPatternCache", "m_keyTables", "m_countersTable", "m_sourceTreeResultTreeFactory", "m_mode",
+                 "m_currentTemplateStack", "m_rootDocument", "m_stylesheetRoot", "m_xsltProcessor", "m_copyTextNodesOnlyStack",
+                 "m_modeStack", "m_currentIndexStack", "m_xobjectPtrStack", "m_paramsVectorStack", "m_nodesToTransformStack",
+                 "m_processCurrentAttributeStack", "m_skipElementAttributesStack", "m_executeIfStack", "m_elementInvokerStack",
+                 "m_useAttributeSetIndexesStack", "m_mutableNodeRefListStack(in use)", "m_stringStack(in use)",
+                 "m_formatterToTextStack(in use)", "m_formatterToSourceTreeStack(in use)", "xpath.m_currentNodeStack",
+                 "xpath.m_contextNodeListStack", "xpath.m_prefixResolver", "xpath.m_xpathEnvSupport", "xpath.m_domSupport",
+                 "xpath.m_xobjectFactory"]
+OBJ_STACKS = {i for i, n in enumerate(RESIDUE_NAMES) if n.endswith("(in use)")}
+
+
+def residue0_of(ex):
+    for ev in ex:
+        if ev["e"] == "New":
+            return ev.get("residue")
+    return None
+
+
+def residue_diff(ex, k):
+    r0, r = residue0_of(ex), ex[k].get("residue")
+    if r0 is None or r is None or len(r0) != len(r):
+        return None
+    return {i for i in range(len(r)) if r[i] != r0[i]}
+
+
+def mask_stale(ex):
+    idx = set(stale_error_events(ex))
+    return [dict((a, b) for a, b in ev.items() if a != "errEmpty") if i in idx else ev for i, ev in enumerate(ex)]
+
+
+def mask_objstacks(ex):
+    r0 = residue0_of(ex)
+    out = []
+    for ev in ex:
+        if r0 is not None and "residue" in ev and ev["e"] != "New" and len(ev["residue"]) == len(r0):
+            ev = dict(ev, residue=[r0[i] if i in OBJ_STACKS else x for i, x in enumerate(ev["residue"])])
+        out.append(ev)
+    return out
+
+
+# known deviations that do not change what the transformer does next: the rest of such an execution is validated
+# again with exactly the deviating observation withheld
+MASKS = {"staleErrorMessage": mask_stale, "objectStackCachePositionKept": mask_objstacks}
+
+
 def validate(res, events, known, tag):
-    """TV in (at most) two rounds; returns number of accepted executions"""
+    """TV, repeated for executions that were rejected at a known, maskable deviation; returns (executions, accepted)"""
     execs = vlib.split_executions(events)
-    starts, pos = [], 0
-    for ex in execs:
-        starts.append(pos); pos += len(ex)
     fresh = {}
     for ev in events:
         if ev["e"] == "Fresh":
             fresh[(ev["ss"], ev["src"], json.dumps(ev["params"], sort_keys=True), json.dumps(ev["fns"], sort_keys=True))] = (ev["status"], ev["out"])
-    rejects, st = vlib.tlc_validate_sharded(TRACE, events, tag=tag)
-    res.notes["tv_states"] = res.notes.get("tv_states", 0) + st["tv_states"]
-    bad, again = set(), []
-    for rj in rejects:
-        e = bisect.bisect_right(starts, rj["line"]) - 1
-        ex = execs[e]; k = rj["line"] - starts[e]
-        key = classify(ex, k, rj, fresh)
-        if key == "staleErrorMessage" and key in known:
-            res.known(known[key])
-            # this deviation does not change what the transformer does next: validate the rest of the execution
-            # with the reported emptiness withheld at exactly the events that carry the deviation's signature
-            idx = set(stale_error_events(ex))
-            again.append((e, [dict((a, b) for a, b in ev.items() if a != "errEmpty") if i in idx else ev for i, ev in enumerate(ex)]))
-        elif key and key in known:
-            res.known(known[key]); bad.add(e)
-        else:
-            res.violation(rj["msg"][:300], ex[:k + 1]); bad.add(e)
-    if again:
-        ev2 = [ev for _, ex in again for ev in ex]
-        st2, pos = [], 0
-        for _, ex in again:
-            st2.append(pos); pos += len(ex)
-        rejects2, s2 = vlib.tlc_validate_sharded(TRACE, ev2, tag=tag + "b")
-        res.notes["tv_states"] += s2["tv_states"]
-        res.notes["revalidated_after_known_deviation"] = res.notes.get("revalidated_after_known_deviation", 0) + len(again)
-        for rj in rejects2:
-            j = bisect.bisect_right(st2, rj["line"]) - 1
-            e, ex = again[j]; k = rj["line"] - st2[j]
-            key = classify(ex, k, rj, fresh)
-            bad.add(e)
-            if key and key != "staleErrorMessage" and key in known:
+    masks = {}                                   # execution number -> set of mask keys
+    todo = list(range(len(execs)))
+    bad = set()
+    res.notes.setdefault("tv_states", 0)
+    for rnd in range(len(MASKS) + 1):
+        if not todo:
+            break
+        cur, starts, pos = [], [], 0
+        for e in todo:
+            ex = execs[e]
+            for mk in sorted(masks.get(e, ())):
+                ex = MASKS[mk](ex)
+            cur.append(ex); starts.append(pos); pos += len(ex)
+        rejects, st = vlib.tlc_validate_sharded(TRACE, [ev for ex in cur for ev in ex], tag=tag + str(rnd))
+        res.notes["tv_states"] += st["tv_states"]
+        if rnd:
+            res.notes["revalidated_after_known_deviation"] = res.notes.get("revalidated_after_known_deviation", 0) + len(todo)
+        nxt = []
+        for rj in rejects:
+            j = bisect.bisect_right(starts, rj["line"]) - 1
+            e, k = todo[j], rj["line"] - starts[j]
+            key = classify(execs[e], k, rj, fresh)
+            if key in MASKS and key in known and key not in masks.get(e, ()):
                 res.known(known[key])
+                masks.setdefault(e, set()).add(key)
+                nxt.append(e)
+            elif key and key not in MASKS and key in known:
+                res.known(known[key]); bad.add(e)
             else:
-                res.violation(rj["msg"][:300], execs[e][:k + 1])
+                msg = rj["msg"][:300]
+                d = residue_diff(execs[e], k) if "residue:" in rj["msg"] else None
+                if d:
+                    msg = "%s: residue left behind in %s" % (execs[e][k]["e"], ", ".join("%s=%d" % (RESIDUE_NAMES[i] if i < len(RESIDUE_NAMES) else "entry %d" % i, execs[e][k]["residue"][i]) for i in sorted(d)))
+                res.violation(msg, execs[e][:k + 1]); bad.add(e)
+        todo = nxt
     return execs, len(execs) - len(bad)
 
 
 def classify(ex, k, rj, fresh):
     """semantic key of a rejected event (mirrors KD_* of TransformerImpl.tla), or None"""
     ev = ex[k]
+    if "residue:" in rj["msg"]:
+        d = residue_diff(ex, k)
+        failed_before = any(e["e"] == "Transform" and e["status"] != 0 for e in ex[:k + 1])
+        if d and d <= OBJ_STACKS and failed_before:
+            return "objectStackCachePositionKept"
+        return None
     if k in stale_error_events(ex) and ev["e"] in STATUS_CALLS and ("getLastError" in rj["msg"] or "error message is empty" in rj["msg"]):
         return "staleErrorMessage"
     if ev["e"] == "Transform" and "fresh transformer returns" in rj["msg"]:
@@ -288,15 +339,19 @@ def classify(ex, k, rj, fresh):
 
 # ------------------------------------------------------------------------------------------------ run
 def constants(tier):
+    """mc: design check; gen: history export with handles; deep: longer histories without handles (the handle
+    dimension is what makes the view count grow); kd: histories that contain the parameter shadowing"""
     if tier == "quick":
         mc = dict(hist=6, maxh=1, compile=["S2", "S3", "SX"], parse=["D1", "D2", "DX"], inline_ss=ALL_SS, inline_src=ALL_SRC, vals=["str", "num"])
         gen = dict(mc, hist=4)
+        deep = dict(mc, hist=6, maxh=0, inline_ss=["S1", "S2", "S3", "S4", "SV"], inline_src=["D1", "D2"])
         kd = dict(mc, hist=4, compile=["S3"], parse=["D1"], inline_ss=["S1", "S2", "S4"], inline_src=["D1"], vals=["str", "num", "obj"])
     else:
         mc = dict(hist=8, maxh=2, compile=["S2", "S3", "S4", "SX"], parse=["D1", "D2", "DX"], inline_ss=ALL_SS, inline_src=ALL_SRC, vals=["str", "num", "obj"])
-        gen = dict(mc, hist=7)
+        gen = dict(mc, hist=6, maxh=1)
+        deep = dict(mc, hist=9, maxh=0, inline_src=["D1", "D2"])
         kd = dict(mc, hist=5, maxh=1, compile=["S3"], parse=["D1"], inline_ss=["S1", "S2", "S4"], inline_src=["D1"])
-    return mc, gen, kd
+    return mc, gen, deep, kd
 
 
 def gen_histories(wd, name, c, guard_p, timeout):
@@ -318,7 +373,7 @@ def gen_histories(wd, name, c, guard_p, timeout):
 def run(res, tier, seed):
     quick = tier == "quick"
     wd = vlib.workdir("c06-%d" % os.getpid())
-    mcc, genc, kdc = constants(tier)
+    mcc, genc, deepc, kdc = constants(tier)
     # ---- MC: the design (known deviations kept out, and shown real)
     cfg = os.path.join(wd, "mc.cfg")
     open(cfg, "w").write(cfg_text(mcc, True, True, True))
@@ -327,15 +382,22 @@ def run(res, tier, seed):
     t0 = time.time(); vlib.log("c06: MC %.1fs" % r["wall"])
     # ---- GEN: (A) histories without parameter shadowing, (B) histories that contain it
     hsA, classes, rA = gen_histories(wd, "genA", genc, True, 1500)
+    hsC, classesC, rC = gen_histories(wd, "genC", deepc, True, 1500)
     hsB, _, rB = gen_histories(wd, "genB", kdc, False, 600)
     hsB = [h for h in hsB if has_shadow(h)]
+    classes |= classesC
     missing = CLASSES - classes
     if missing:
         raise vlib.Infra("vacuity: the generated histories never reach outcome class(es) %s" % sorted(missing))
     res.notes["outcome_classes_generated"] = sorted(classes - {"none"})
-    res.notes["gen"] = {"views_A": rA["distinct"], "histories_A": len(hsA), "histories_B_param_shadow": len(hsB)}
-    hists = hsA + hsB
-    vlib.log("c06: GEN %.1fs (%d + %d histories)" % (time.time() - t0, len(hsA), len(hsB))); t0 = time.time()
+    res.notes["gen"] = {"views_A": rA["distinct"], "histories_A": len(hsA), "histories_C_no_handles": len(hsC),
+                        "histories_B_param_shadow": len(hsB)}
+    hists, seen = [], set()
+    for h in hsA + hsC + hsB:
+        k = vlib.canon_hash(h)
+        if k not in seen:
+            seen.add(k); hists.append(h)
+    vlib.log("c06: GEN %.1fs (%d + %d + %d histories, %d distinct)" % (time.time() - t0, len(hsA), len(hsC), len(hsB), len(hists))); t0 = time.time()
     if not quick:
         rng = random.Random(seed)
         hists += [random_history(rng, rng.randint(10, 24), genc) for _ in range(6000)]
